@@ -24,7 +24,6 @@ from textx.const import (
     UNKNOWN_OBJ_ERROR,
 )
 from textx.exceptions import TextXError, TextXSemanticError, TextXSyntaxError
-from textx.lang import PRIMITIVE_PYTHON_TYPES
 from textx.scoping import Postponed, get_included_models, remove_models_from_repositories
 from textx.scoping.providers import PlainName as DefaultScopeProvider
 
@@ -1070,7 +1069,7 @@ def parse_tree_to_objgraph(
                 _discard_user_class_state(models)
                 raise
 
-        if metamodel.textx_tools_support and type(model) not in PRIMITIVE_PYTHON_TYPES:
+        if metamodel.textx_tools_support and not is_immutable_obj:
             # Cross-references for go-to definition language server support
             # Already sorted based on ref_pos_start attr
             # (required for binary search)
@@ -1249,23 +1248,6 @@ class ReferenceResolver:
                     else:
                         resolved = default_scope(obj, attr, crossref)
 
-                # Collect cross-references for textx-tools
-                if (
-                    resolved is not None
-                    and type(resolved) is not Postponed
-                    and metamodel.textx_tools_support
-                ):
-                    self.pos_crossref_list.append(
-                        RefRulePosition(
-                            name=crossref.obj_name,
-                            ref_pos_start=crossref.position,
-                            ref_pos_end=crossref.position_end,
-                            def_file_name=get_model(resolved)._tx_filename,
-                            def_pos_start=resolved._tx_position,
-                            def_pos_end=resolved._tx_position_end,
-                        )
-                    )
-
                 # As a fall-back search builtins if given
                 if (
                     resolved is None
@@ -1278,6 +1260,27 @@ class ReferenceResolver:
                         metamodel.builtins[crossref.obj_name], crossref.cls
                     ):
                         resolved = metamodel.builtins[crossref.obj_name]
+
+                # Collect cross-references for textx-tools. The target may be
+                # a builtin or an object of a foreign (non-textX) model, which
+                # has no definition file or span.
+                if (
+                    resolved is not None
+                    and type(resolved) is not Postponed
+                    and metamodel.textx_tools_support
+                ):
+                    self.pos_crossref_list.append(
+                        RefRulePosition(
+                            name=crossref.obj_name,
+                            ref_pos_start=crossref.position,
+                            ref_pos_end=crossref.position_end,
+                            def_file_name=getattr(
+                                get_model(resolved), "_tx_filename", None
+                            ),
+                            def_pos_start=getattr(resolved, "_tx_position", None),
+                            def_pos_end=getattr(resolved, "_tx_position_end", None),
+                        )
+                    )
 
                 if resolved is None:
                     line, col = self.parser.pos_to_linecol(crossref.position)
